@@ -26,6 +26,10 @@ def sizeOperand : Instr → Bool
   | .code .rand => true
   | _ => false
 
+/-- the limit CODE.RAND hands to the generator: `min(|operand|, |max_points_in_random_expressions|)` -/
+def randLimit (s : State) (i : Int32) : Nat :=
+  min (i32Abs i).toInt.natAbs (i32Abs s.cfg.maxPointsRand).toInt.natAbs
+
 /-- the growth a single step may cause when its work is bounded by the state -/
 def growthBound (i : Instr) (w : Nat) : Nat :=
   match i with
